@@ -140,7 +140,7 @@ class C10:
             "callback; by-name setters vetoed by the validation callback at index 0/last/new; wrong type; index on a "
             "scalar; list calls on non-lists; unknown names; cfg_addtsec existing title / non-section; cfg_rmtsec / "
             "cfg_rmnsec / cfg_rmsec of non-existing sections; cfg_setopt with unconvertible or empty text), with "
-            "CFGF_COMMENTS on; Hypothesis adds interleavings with successful calls. Oracle: the call reports failure and the "
+            "CFGF_COMMENTS on; Hypothesis adds interleavings with arbitrary other calls (and every one of those that reports failure is held to the same rule). Oracle: the call reports failure and the "
             "full dump (values, counts, order, annotations, all flag bits incl. RESET/MODIFIED, every other option) is "
             "bit-identical before and after. Non-trivial = state other than 'explicitly set' or offending position not "
             "last; distinct = distinct (state, call)" % (len(STATES), len(CALLS)))
@@ -155,8 +155,13 @@ class C10:
             s.add("init", 1, 0, F_COMMENTS)
             for line in STATES[state]:
                 s.add(*line)
+            premarks = []
+            last = s.add("dump", 1) if pre else None
             for line in pre:
-                s.add(*line)
+                k = s.add(*line)
+                nxt = s.add("dump", 1)
+                premarks.append((last, k, nxt, line[0]))
+                last = nxt
             name, lines, _ = CALLS[ci]
             i0 = s.add("dump", 1)
             ic = None
@@ -165,7 +170,7 @@ class C10:
                 if line[0] not in ("getopt", "cbfail"):
                     ic = k
             i1 = s.add("dump", 1)
-            marks.append((i0, ic, i1))
+            marks.append((i0, ic, i1, premarks))
         s.add("newcase")
         return s, marks
 
@@ -196,8 +201,19 @@ class C10:
         t = by_index(r.trace)
         fails, keys, cc = [], [], {}
         crashed = False
-        for (state, ci, pre), (i0, ic, i1) in zip(subs, marks):
+        for (state, ci, pre), (i0, ic, i1, premarks) in zip(subs, marks):
             name = CALLS[ci][0]
+            # the calls before the one under test are arbitrary: whichever of them reports failure must have changed nothing
+            for (b0, k, b1, cmd) in premarks:
+                if b0 in t and k in t and b1 in t and not t[k].get("skipped") and not cmd.startswith("parse"):
+                    e = t[k]
+                    refused = (e.get("rc") not in (0, None)) if "rc" in e else (("ok" in e and not e["ok"]) or ("p" in e and not e["p"]))
+                    if refused and t[b0]["tree"] != t[b1]["tree"]:
+                        diff = first_diff(t[b0]["tree"], t[b1]["tree"])
+                        fails.append(Failure("changed/%s-reporting-failure/%s" % (cmd, diff[0]),
+                                             "state %s: call %r reported failure (%r) but changed the configuration: %s" % (state, e.get("c"), e, diff[1]),
+                                             {"subs": [[state, ci, pre]]}))
+                        break
             if not self.applicable(state, name, pre):
                 continue
             m = name.split(" ")[0]
